@@ -197,3 +197,5 @@ def run(chk, tier, only_rule=None):
     # ---- shared slice clamp rule
     from . import c05
     c05.r05_5(chk, tier)
+    c05.r05_6(chk, tier, units=['jmespath'], floor=70)
+    c05.r05_7(chk, tier, units=['jmespath'], floor=90)
